@@ -7,7 +7,7 @@
 (* initial states: the pairs without ACC line are the rejected ones.                                                    *)
 EXTENDS Hier, Json, IOUtils
 
-\* inputs and per-platform tables computed once, kept in TLC registers (set by ASSUME: visible to every worker)
+\* inputs and per-platform tables computed once, kept in TLC registers (shared values, not deep-normalised: run with -workers 1)
 ASSUME TLCSet(1, JsonDeserialize(IOEnv.PLATS))
 Plats == TLCGet(1)
 ASSUME TLCSet(2, ndJsonDeserialize(IOEnv.TRACE))
